@@ -325,6 +325,142 @@ let m_incr (f : Stdlib.String.t list) : Stdlib.String.t =
    | r -> Buffer.add_string out (Printf.sprintf "header=%s\n" (outcome_head r)));
   fin ()
 
+let js (l : n list) : Stdlib.String.t = join "," (Stdlib.List.map (fun x -> string_of_int (int_of_n x)) l)
+
+let dump_fview (out : Buffer.t) (i : int) (f : fview) =
+  Buffer.add_string out (Printf.sprintf "f[%d].id=%d\n" i (int_of_z f.fv_id));
+  Stdlib.List.iteri (fun k (p : pview) ->
+      Buffer.add_string out (Printf.sprintf "f[%d].port[%d].port=%d\n" i k (int_of_n p.pv_port));
+      Buffer.add_string out (Printf.sprintf "f[%d].port[%d].leader.pre=%s\n" i k (js p.pv_leader.cv_pre));
+      Buffer.add_string out (Printf.sprintf "f[%d].port[%d].leader.post=%s\n" i k (js p.pv_leader.cv_post));
+      (match p.pv_follower with
+       | None -> Buffer.add_string out (Printf.sprintf "f[%d].port[%d].follower=none\n" i k)
+       | Some d ->
+         Buffer.add_string out (Printf.sprintf "f[%d].port[%d].follower.pre=%s\n" i k (js d.cv_pre));
+         Buffer.add_string out (Printf.sprintf "f[%d].port[%d].follower.post=%s\n" i k (js d.cv_post)))) f.fv_ports;
+  (match f.fv_start with
+   | None -> Buffer.add_string out (Printf.sprintf "f[%d].start=none\n" i)
+   | Some v -> Buffer.add_string out (Printf.sprintf "f[%d].start=%s\n" i (js v)));
+  (match f.fv_end with
+   | None -> Buffer.add_string out (Printf.sprintf "f[%d].end=none\n" i)
+   | Some v -> Buffer.add_string out (Printf.sprintf "f[%d].end=%s\n" i (js v)));
+  (match f.fv_items with
+   | None -> Buffer.add_string out (Printf.sprintf "f[%d].items=none\n" i)
+   | Some its ->
+     Buffer.add_string out (Printf.sprintf "f[%d].items.len=%d\n" i (Stdlib.List.length its));
+     Stdlib.List.iteri (fun j it -> Buffer.add_string out (Printf.sprintf "f[%d].item[%d]=%s\n" i j (js it))) its)
+
+let add_indented out tag n (b : Buffer.t) =
+  Stdlib.List.iter (fun l -> if l <> "" then Buffer.add_string out (Printf.sprintf "  %s[%d] %s\n" tag n l))
+    (Stdlib.String.split_on_char '\n' (Buffer.contents b))
+
+(* view: <hex> <i|m> *)
+let m_view (f : Stdlib.String.t list) : Stdlib.String.t =
+  let data = bytes_of_hex (Stdlib.List.nth f 0) in
+  let out = Buffer.create 4096 in
+  if Stdlib.List.nth f 1 = "i" then begin
+    (match api_read false false data with
+     | Ok (g, _) ->
+       Buffer.add_string out "OK\n";
+       let v = api_game_version g in
+       dump_frames out v g.g_frames;
+       Stdlib.List.iteri (fun i _ ->
+           match api_frame_view v g.g_frames (nat_of_int i) with
+           | Ok fv -> dump_fview out i fv
+           | r -> Buffer.add_string out (Printf.sprintf "f[%d]=%s\n" i (outcome_head r))) g.g_frames.f_ids
+     | r -> Buffer.add_string out (outcome_head r ^ "\n"))
+  end else begin
+    (match api_parse_header data with
+     | Ok (raw_len, bs) ->
+       let raw_len = int_of_n raw_len in
+       (match api_parse_start bs with
+        | Ok (st, bs) ->
+          Buffer.add_string out "OK\n";
+          let rec loop n (s : pstate) bs =
+            if int_of_n s.ps_bytes_read < raw_len then
+              (match api_parse_event s bs with
+               | Ok ((code, s'), bs') ->
+                 let code = int_of_n code in
+                 let len = Stdlib.List.length s'.ps_frames.f_ids in
+                 let complete = if code = 0x3C then len else max 0 (len - 1) in
+                 Buffer.add_string out (Printf.sprintf "ev[%d]=%d len=%d complete=%d\n" n code len complete);
+                 if code = 0x3C || code = 0x3A || code = 0x37 then begin
+                   let d = Buffer.create 1024 in
+                   dump_frames d (api_state_version s') s'.ps_frames;
+                   add_indented out "s" n d;
+                   for i = 0 to complete - 1 do
+                     let d = Buffer.create 256 in
+                     (match api_frame_view (api_state_version s') s'.ps_frames (nat_of_int i) with
+                      | Ok fv -> dump_fview d i fv
+                      | r -> Buffer.add_string d (Printf.sprintf "f[%d]=%s\n" i (outcome_head r)));
+                     add_indented out "v" n d
+                   done
+                 end;
+                 if code = 0x39 then () else loop (n + 1) s' bs'
+               | _ -> Buffer.add_string out (Printf.sprintf "ev[%d]=ERR\n" n))
+            else () in
+          loop 0 st bs
+        | _ -> Buffer.add_string out "ERR\n")
+     | _ -> Buffer.add_string out "ERR\n")
+  end;
+  Buffer.contents out
+
+let prim_name (p : prim) : Stdlib.String.t =
+  match p with U8 -> "u8" | I8 -> "i8" | U16 -> "u16" | I16 -> "i16" | U32 -> "u32" | I32 -> "i32" | F32 -> "f32"
+
+let rec walk (out : Buffer.t) (path : Stdlib.String.t) (t : atree) =
+  match t with
+  | APrim (_, ty, vals) ->
+    Buffer.add_string out (Printf.sprintf "A %s %s len=%d vals=%s\n" path (prim_name ty) (Stdlib.List.length vals) (js vals))
+  | AStruct (_, len, valid, ch) ->
+    let nm c = (match c with APrim (n, _, _) -> n | AStruct (n, _, _, _) -> n | AList (n, _, _, _, _) -> n) in
+    let names = Stdlib.List.map (fun c -> ocaml_string_of (nm c)) ch in
+    Buffer.add_string out (Printf.sprintf "A %s struct len=%d fields=%s nullable=%s validity=%s\n" path (int_of_nat len)
+                             (join "," names) (Stdlib.String.make (Stdlib.List.length ch) '0') (bitmap_s valid));
+    Stdlib.List.iter (fun c -> walk out (path ^ "/" ^ ocaml_string_of (nm c)) c) ch
+  | AList (_, len, inner, offs, child) ->
+    Buffer.add_string out (Printf.sprintf "A %s list len=%d inner=%s offsets=%s\n" path (int_of_nat len) (ocaml_string_of inner)
+                             (join "," (Stdlib.List.map (fun x -> string_of_int (int_of_z x)) offs)));
+    walk out (path ^ "/[" ^ ocaml_string_of inner ^ "]") child
+
+(* arrow: <hex> *)
+let m_arrow (f : Stdlib.String.t list) : Stdlib.String.t =
+  let data = bytes_of_hex (Stdlib.List.nth f 0) in
+  let out = Buffer.create 4096 in
+  (match api_read false false data with
+   | Ok (g, _) ->
+     Buffer.add_string out "OK\n";
+     let v = api_game_version g in
+     dump_frames out v g.g_frames;
+     (match api_arrow_frame v g.g_frames with
+      | Ok t ->
+        Buffer.add_string out "arrow=OK\n";
+        walk out "frame" t;
+        (* from_struct_array(into_struct_array(f)) = f under the positional obligations (Properties/C14.v) *)
+        (match api_write g with
+         | Ok w -> Buffer.add_string out (Printf.sprintf "back_identical=%d\n" (if w = data then 1 else 0))
+         | _ -> Buffer.add_string out "back=ERR\n")
+      | r -> Buffer.add_string out (outcome_head r ^ "\n"))
+   | r -> Buffer.add_string out (outcome_head r ^ "\n"));
+  Buffer.contents out
+
+(* slpparch: <slp hex> <opts> <hash string hex or -> <meta blob> <start blob> <end blob> <frames blob>:
+   the archive bytes predicted for the game read from the .slp, given the opaque blobs *)
+let m_slpparch (f : Stdlib.String.t list) : Stdlib.String.t =
+  let nth k = Stdlib.List.nth f k in
+  let data = bytes_of_hex (nth 0) in
+  let o = nth 1 in
+  let skip = Stdlib.String.contains o 's' and hash = Stdlib.String.contains o 'h' in
+  (match api_read skip hash data with
+   | Ok (g, _) ->
+     let h = if nth 2 = "-" then None else Some (bytes_of_hex (nth 2)) in
+     (match api_slpp_archive g h (bytes_of_hex (nth 3)) (bytes_of_hex (nth 4)) (bytes_of_hex (nth 5)) (bytes_of_hex (nth 6)) with
+      | Ok a ->
+        let names = Stdlib.List.map str_of_bytes (api_entry_names g) in
+        Printf.sprintf "entries=%s\narch=%s\n" (join "," names) (hex_of_bytes a)
+      | r -> outcome_head r ^ "\n")
+   | r -> outcome_head r ^ "\n")
+
 let dispatch (mode : Stdlib.String.t) (f : Stdlib.String.t list) : Stdlib.String.t =
   match mode with
   | "read" -> m_read f
@@ -334,4 +470,7 @@ let dispatch (mode : Stdlib.String.t) (f : Stdlib.String.t list) : Stdlib.String
   | "norm" -> m_norm f
   | "sjis" -> m_sjis f
   | "incr" -> m_incr f
+  | "view" -> m_view f
+  | "arrow" -> m_arrow f
+  | "slpparch" -> m_slpparch f
   | _ -> failwith ("unknown mode " ^ mode)
